@@ -1030,6 +1030,117 @@ theorem typeChange_false_sub {T : PType} {supers : List (Option Param)} (h : typ
   have := List.any_eq_false.1 h (some h') hm
   simpa using this
 
+/-- if, on every validated slot, the static part of the merge has the value a valid Parameter `h'`
+of a subtype holds, then the merged non-None default validates -/
+theorem sat_of_static_agrees (rx : String → String → Bool) (op name : Nat) (own : Param)
+    (supers : List (Option Param)) (h' : Param) (hok : defaultOk rx h' = true)
+    (hsub : h'.ptype.sub own.ptype = true)
+    (hst : ∀ s, hasSlot own.ptype s = true → nonValidated s = false →
+      cfgOf (staticFill own.ptype (mergeSearch own supers).1) s = h'.cfg s ∧ (h'.cfg s).isSome = true)
+    {f4 : Slots} {d : Val} (hp : prepare own.ptype op name (mergeSearch own supers).1 = .ok f4)
+    (hd : f4 .default = some d) (hnn : d.v.isNone = false) :
+    validate rx own.ptype (cfgOf f4) d.v = .ok () := by
+  have hdv : cfgOf f4 .default = some d.v := by simp [cfgOf, hd]
+  -- it suffices that f4 agrees with h' on the slots validation reads and on the default
+  have finish : (∀ s, relevant own.ptype s = true → cfgOf f4 s = h'.cfg s) ∧ h'.cfg .default = some d.v →
+      validate rx own.ptype (cfgOf f4) d.v = .ok () := by
+    rintro ⟨hrel, hdef⟩
+    rw [validate_congr rx own.ptype d.v hrel]
+    apply validate_mono rx hsub
+    unfold defaultOk at hok
+    rw [hdef] at hok
+    simp only [hnn, Bool.false_or] at hok
+    exact Sat_some hdef hok
+  by_cases h1 : own.ptype = .tuple
+  · rw [h1] at hp
+    have hc := prepare_tuple_cfg hp
+    rw [← h1] at hc
+    apply finish
+    constructor
+    · intro s hs
+      rw [hc s]
+      have ⟨e1, e2⟩ := hst s (relevant_hasSlot hs) (relevant_validated hs)
+      by_cases hl : s = .length
+      · subst hl
+        simp only [if_true]
+        rw [e1]
+        cases hh : h'.cfg .length with
+        | none => simp [hh] at e2
+        | some v => rfl
+      · simp only [hl, if_false]; exact e1
+    · have ⟨e1, _⟩ := hst .default rfl rfl
+      rw [← e1, ← hdv, hc .default]
+      simp
+  · by_cases h2 : own.ptype = .selector
+    · rw [h2] at hp
+      obtain ⟨cos, dd, hc0, hd0, hall⟩ := prepare_selector_cfg rfl hp
+      rw [← h2] at hc0 hd0 hall
+      have ⟨ed, _⟩ := hst .default rfl rfl
+      have hdd : dd = d.v := by
+        have := hall .default
+        rw [hdv] at this
+        simp only [reduceCtorEq, if_false] at this
+        rw [hd0] at this
+        exact (Option.some.inj this).symm
+      have ⟨ec, ec2⟩ := hst .checkOnSet (by rw [h2]; rfl) rfl
+      have ⟨eo, eo2⟩ := hst .objects (by rw [h2]; rfl) rfl
+      have hcos : h'.cfg .checkOnSet = some cos := by
+        rw [← ec]
+        unfold selCos at hc0
+        cases hh : cfgOf (staticFill own.ptype (mergeSearch own supers).1) .checkOnSet with
+        | none => rw [ec] at hh; simp [hh] at ec2
+        | some v => rw [hh] at hc0; simpa using hc0
+      -- a Selector that does not check membership accepts everything
+      by_cases hct : cos.truthy = true
+      · apply finish
+        refine ⟨?_, by rw [← ed, hd0, hdd]⟩
+        intro s hs
+        rw [hall s]
+        have ⟨e1, _⟩ := hst s (relevant_hasSlot hs) (relevant_validated hs)
+        by_cases hso : s = .objects
+        · subst hso
+          have hne : ¬ (cos = .atom (.bool false) ∧ dd.isNone = false) := by
+            rintro ⟨hc, _⟩; rw [hc] at hct; cases hct
+          simp only [if_true, hne, if_false]
+          unfold selBase
+          rw [eo]
+          cases hh : h'.cfg .objects with
+          | none => simp [hh] at eo2
+          | some v => rfl
+        · by_cases hsc : s = .checkOnSet
+          · subst hsc; simp [hcos]
+          · have hsn : s ≠ .names := by intro e; subst e; rw [h2] at hs; cases hs
+            simp only [hso, hsc, hsn, if_false]; exact e1
+      · have hct' : cos.truthy = false := by simpa using hct
+        have ⟨ea, ea2⟩ := hst .allowNone rfl rfl
+        have h4c : cfgOf f4 .checkOnSet = some cos := by rw [hall]; simp
+        have h4a : (cfgOf f4 .allowNone).isSome = true := by
+          rw [hall]; simp only [reduceCtorEq, if_false]; rw [ea]; exact ea2
+        have h4o : (cfgOf f4 .objects).isSome = true := by
+          rw [hall]; simp only [if_true]; split <;> rfl
+        rw [h2]
+        simp only [validate, validateSelector, h4c]
+        cases ha : cfgOf f4 .allowNone with
+        | none => simp [ha] at h4a
+        | some an =>
+          cases ho : cfgOf f4 .objects with
+          | none => simp [ho] at h4o
+          | some objs => simp [hct']
+    · rw [prepare_plain h1 h2] at hp
+      split at hp
+      · cases hp
+      · cases hp
+        apply finish
+        simp only [cfgOf_copyMutable] at hdv ⊢
+        constructor
+        · intro s hs
+          exact (hst s (relevant_hasSlot hs) (relevant_validated hs)).1
+        · have ⟨e1, _⟩ := hst .default rfl rfl
+          rw [← e1, hdv]
+
+
+
+
 /-- Core of the property's last sentence: a merge that is *not* re-validated and has a
 non-None default still satisfies its constraints, because then it holds, slot by
 slot, what a valid Parameter already held. -/
@@ -1049,106 +1160,8 @@ theorem not_revalidated_sat (rx : String → String → Bool) (op name : Nat) (o
     obtain ⟨hfill, hok⟩ := hsup h' hmem
     have hsub := typeChange_false_sub htc hmem
     rw [mergeSearch_snd own supers htc] at hov
-    have hst := fun s hs hv => no_override_static (s := s) hf hfill hsub hov hs hv
-    have hdv : cfgOf f4 .default = some d.v := by simp [cfgOf, hd]
-    -- it suffices that f4 agrees with h' on the slots validation reads and on the default
-    have finish : (∀ s, relevant own.ptype s = true → cfgOf f4 s = h'.cfg s) ∧ h'.cfg .default = some d.v →
-        validate rx own.ptype (cfgOf f4) d.v = .ok () := by
-      rintro ⟨hrel, hdef⟩
-      rw [validate_congr rx own.ptype d.v hrel]
-      apply validate_mono rx hsub
-      unfold defaultOk at hok
-      rw [hdef] at hok
-      simp only [hnn, Bool.false_or] at hok
-      exact Sat_some hdef hok
-    by_cases h1 : own.ptype = .tuple
-    · rw [h1] at hp
-      have hc := prepare_tuple_cfg hp
-      rw [← h1] at hc
-      apply finish
-      constructor
-      · intro s hs
-        rw [hc s]
-        have ⟨e1, e2⟩ := hst s (relevant_hasSlot hs) (relevant_validated hs)
-        by_cases hl : s = .length
-        · subst hl
-          simp only [if_true]
-          rw [e1]
-          cases hh : h'.cfg .length with
-          | none => simp [hh] at e2
-          | some v => rfl
-        · simp only [hl, if_false]; exact e1
-      · have ⟨e1, _⟩ := hst .default rfl rfl
-        rw [← e1, ← hdv, hc .default]
-        simp
-    · by_cases h2 : own.ptype = .selector
-      · rw [h2] at hp
-        obtain ⟨cos, dd, hc0, hd0, hall⟩ := prepare_selector_cfg rfl hp
-        rw [← h2] at hc0 hd0 hall
-        have ⟨ed, _⟩ := hst .default rfl rfl
-        have hdd : dd = d.v := by
-          have := hall .default
-          rw [hdv] at this
-          simp only [reduceCtorEq, if_false] at this
-          rw [hd0] at this
-          exact (Option.some.inj this).symm
-        have ⟨ec, ec2⟩ := hst .checkOnSet (by rw [h2]; rfl) rfl
-        have ⟨eo, eo2⟩ := hst .objects (by rw [h2]; rfl) rfl
-        have hcos : h'.cfg .checkOnSet = some cos := by
-          rw [← ec]
-          unfold selCos at hc0
-          cases hh : cfgOf (staticFill own.ptype (mergeSearch own supers).1) .checkOnSet with
-          | none => rw [ec] at hh; simp [hh] at ec2
-          | some v => rw [hh] at hc0; simpa using hc0
-        -- a Selector that does not check membership accepts everything
-        by_cases hct : cos.truthy = true
-        · apply finish
-          refine ⟨?_, by rw [← ed, hd0, hdd]⟩
-          intro s hs
-          rw [hall s]
-          have ⟨e1, _⟩ := hst s (relevant_hasSlot hs) (relevant_validated hs)
-          by_cases hso : s = .objects
-          · subst hso
-            have hne : ¬ (cos = .atom (.bool false) ∧ dd.isNone = false) := by
-              rintro ⟨hc, _⟩; rw [hc] at hct; cases hct
-            simp only [if_true, hne, if_false]
-            unfold selBase
-            rw [eo]
-            cases hh : h'.cfg .objects with
-            | none => simp [hh] at eo2
-            | some v => rfl
-          · by_cases hsc : s = .checkOnSet
-            · subst hsc; simp [hcos]
-            · have hsn : s ≠ .names := by intro e; subst e; rw [h2] at hs; cases hs
-              simp only [hso, hsc, hsn, if_false]; exact e1
-        · have hct' : cos.truthy = false := by simpa using hct
-          have ⟨ea, ea2⟩ := hst .allowNone rfl rfl
-          have h4c : cfgOf f4 .checkOnSet = some cos := by rw [hall]; simp
-          have h4a : (cfgOf f4 .allowNone).isSome = true := by
-            rw [hall]; simp only [reduceCtorEq, if_false]; rw [ea]; exact ea2
-          have h4o : (cfgOf f4 .objects).isSome = true := by
-            rw [hall]; simp only [if_true]; split <;> rfl
-          rw [h2]
-          simp only [validate, validateSelector, h4c]
-          cases ha : cfgOf f4 .allowNone with
-          | none => simp [ha] at h4a
-          | some an =>
-            cases ho : cfgOf f4 .objects with
-            | none => simp [ho] at h4o
-            | some objs => simp [hct']
-      · rw [prepare_plain h1 h2] at hp
-        split at hp
-        · cases hp
-        · cases hp
-          apply finish
-          simp only [cfgOf_copyMutable] at hdv ⊢
-          constructor
-          · intro s hs
-            exact (hst s (relevant_hasSlot hs) (relevant_validated hs)).1
-          · have ⟨e1, _⟩ := hst .default rfl rfl
-            rw [← e1, hdv]
-
-
+    exact sat_of_static_agrees rx op name own supers h' hok hsub
+      (fun s hs hv => no_override_static (s := s) hf hfill hsub hov hs hv) hp hd hnn
 
 /-! ### what a successful merge leaves behind -/
 
@@ -2498,6 +2511,15 @@ theorem construct_names_iff_objects (rx : String → String → Bool) (op name :
                   simp only [if_true, Option.isSome_map, isSome_cfgOf]; exact (hraw ad).2
             · cases h
               exact hraw ad
+
+
+theorem revalidate_of_validate_ok (rx : String → String → Bool) (T : PType) (f : Slots) (d : PyV)
+    (h : validate rx T (cfgOf f) d = .ok ()) :
+    (revalidate rx T f d).2 = .ok ∨ (revalidate rx T f d).2 = .unsupported := by
+  unfold revalidate
+  split
+  · cases ensureInObjects f d <;> simp
+  · simp [h]
 
 
 end ParamVerif.Inherit
